@@ -379,6 +379,8 @@ func (c *ctx) classify(e ast.Expr) string {
 			return cCopy
 		case wrappers[fn] && len(x.Args) == 1:
 			return c.classify(x.Args[0])
+		case fn == "make":
+			return cCopy // a new allocation holding (at most) copied content
 		case fresh[fn]:
 			return cOwn
 		case fn == "protowire.AppendTag" || fn == "protowire.AppendVarint" || fn == "protowire.AppendBytes":
